@@ -15,6 +15,7 @@ last 128 bytes starting with "TAG"): `Layout`, `render`.
 -/
 import MutagenModel.Model.Id3Util
 import MutagenModel.Model.Padding
+import MutagenModel.Generated.FrameIds
 set_option linter.unusedVariables false
 namespace Mutagen.Id3F
 open Mutagen
@@ -49,9 +50,26 @@ def indexFrom (pat : Bytes) : Nat → Nat → Bytes → Option Nat
   | start, pos, d@(_ :: r) =>
     if start ≤ pos ∧ pat.isPrefixOf d then some pos else indexFrom pat start (pos + 1) r
 
+/-- the extended-header part of `ID3Header.__init__` (flag 0x40), for what it can raise: four size
+bytes must follow (`read_full`); if they spell a key of `Frames` the flag is taken for a tagger's
+mistake; otherwise the size is syncsafe minus 4 for v2.4 (invalid padding bits or a negative
+result are errors) and a plain 32-bit number before v2.4, and that many bytes must follow.  Every
+failure is an `ID3 error` (a MutagenError; `read_full` raises an IOError that is converted). -/
+def extHeader (f : Bytes) (vmaj : Nat) : Except PyErr Unit :=
+  let x := (f.drop 10).take 4
+  if x.length ≠ 4 then .error .mutagen
+  else if Generated.frameIds.contains x then .ok ()
+  else if vmaj = 4 then
+    if !(x.all fun b => b.toNat < 128) then .error .mutagen
+    else
+      let e := bpFromBytes 7 true x
+      if e < 4 then .error .mutagen
+      else if (f.drop 14).length < e - 4 then .error .mutagen else .ok ()
+  else
+    if (f.drop 14).length < bpFromBytes 8 true x then .error .mutagen else .ok ()
+
 /-- `ID3Header(fileobj).size` as `save` uses it: `ok none` = ID3NoHeaderError (no tag),
-`ok (some n)` = a tag of `n` bytes (header included), `error` = any other ID3 error.  Headers
-with the extended-header flag are outside the model (`.notImplemented`). -/
+`ok (some n)` = a tag of `n` bytes (header included), `error` = any other ID3 error. -/
 def headerSize (f : Bytes) : Except PyErr (Option Nat) :=
   let d := f.take 10
   if d.length ≠ 10 then .ok none
@@ -64,7 +82,10 @@ def headerSize (f : Bytes) : Except PyErr (Option Nat) :=
     else if !(size.all fun x => x.toNat < 128) then .error .mutagen
     else if vmaj = 4 ∧ flags % 16 ≠ 0 then .error .mutagen
     else if vmaj = 3 ∧ flags % 32 ≠ 0 then .error .mutagen
-    else if flags / 64 % 2 = 1 then .error .notImplemented
+    else if flags / 64 % 2 = 1 then
+      match extHeader f vmaj with
+      | .error e => .error e
+      | .ok _ => .ok (some (bpFromBytes 7 true size + 10))
     else .ok (some (bpFromBytes 7 true size + 10))
 
 /-- `find_id3v1`: the number of bytes at the end of the file that are the ID3v1 block.  Looks at
@@ -102,12 +123,15 @@ def save (f : Bytes) (vmaj : Nat) (frames : Bytes) (pad : PadChoice) (v1opt : Na
     else
       let newPadding := getPadding pad ((old : Int) - needed) trailing.toNat
       if newPadding < 0 then .error .mutagen
+      -- the size field holds 28 bits: frames that do not fit are refused, the padding is capped
+      else if frames.length > 2 ^ 28 - 1 then .error .mutagen
       else
-        let newSize : Nat := needed + newPadding.toNat
+        let padN : Nat := min newPadding.toNat (2 ^ 28 - 1 - frames.length)
+        let newSize : Nat := needed + padN
         match header vmaj (newSize - 10) with
         | .error e => .error e
         | .ok hd =>
-          let data := hd ++ frames ++ zeros newPadding.toNat
+          let data := hd ++ frames ++ zeros padN
           -- insert_bytes / delete_bytes at the end of the old / new tag, then write at 0
           let f1 := data ++ f.drop old
           -- __save_v1
